@@ -27,6 +27,52 @@ where
     }
 }
 
+/// the same formatting with width / fill / alignment / sign / alternate flags in the spec: the impl prints
+/// the digits and nothing else, so every variant must give the same string
+fn fmt_variants<N>(upper: bool, prec: Option<usize>, bytes: &[u8]) -> Vec<(String, String)>
+where
+    N: ArrayLength + Add<N>,
+    Sum<N, N>: ArrayLength,
+{
+    let arr: GenericArray<u8, N> = GenericArray::from_iter(bytes.iter().copied());
+    let mut out = vec![];
+    let digits = prec.map(|p| p.min(2 * bytes.len())).unwrap_or(2 * bytes.len());
+    for w in [1usize, digits + 1, digits + 9] {
+        match (upper, prec) {
+            (false, None) => {
+                out.push((format!("{{:{}x}}", w), format!("{:w$x}", arr, w = w)));
+                out.push((format!("{{:>{}x}}", w), format!("{:>w$x}", arr, w = w)));
+                out.push((format!("{{:^{}x}}", w), format!("{:^w$x}", arr, w = w)));
+                out.push((format!("{{:0{}x}}", w), format!("{:0w$x}", arr, w = w)));
+                out.push((format!("{{:*<{}x}}", w), format!("{:*<w$x}", arr, w = w)));
+            }
+            (true, None) => {
+                out.push((format!("{{:{}X}}", w), format!("{:w$X}", arr, w = w)));
+                out.push((format!("{{:^{}X}}", w), format!("{:^w$X}", arr, w = w)));
+                out.push((format!("{{:0{}X}}", w), format!("{:0w$X}", arr, w = w)));
+            }
+            (false, Some(p)) => {
+                out.push((format!("{{:{}.{}x}}", w, p), format!("{:w$.p$x}", arr, w = w, p = p)));
+                out.push((format!("{{:^{}.{}x}}", w, p), format!("{:^w$.p$x}", arr, w = w, p = p)));
+                out.push((format!("{{:0{}.{}x}}", w, p), format!("{:0w$.p$x}", arr, w = w, p = p)));
+            }
+            (true, Some(p)) => {
+                out.push((format!("{{:{}.{}X}}", w, p), format!("{:w$.p$X}", arr, w = w, p = p)));
+                out.push((format!("{{:>{}.{}X}}", w, p), format!("{:>w$.p$X}", arr, w = w, p = p)));
+            }
+        }
+    }
+    match (upper, prec) {
+        (false, None) => {
+            out.push(("{:#x}".into(), format!("{:#x}", arr)));
+            out.push(("{:+x}".into(), format!("{:+x}", arr)));
+        }
+        (true, None) => out.push(("{:#X}".into(), format!("{:#X}", arr))),
+        _ => {}
+    }
+    out
+}
+
 /// std::fmt limits a run-time precision argument to u16::MAX ("Formatting argument out of range" beyond)
 const PMAX: usize = u16::MAX as usize;
 
@@ -34,6 +80,18 @@ const LENS: [usize; 29] = [
     0, 1, 2, 3, 4, 5, 6, 7, 8, 9, 10, 11, 12, 13, 14, 15, 16, 17, 31, 32, 33, 1023, 1024, 1025, 2047,
     2048, 2049, 3000, 4096,
 ];
+
+fn run_variants(upper: bool, prec: Option<usize>, bytes: &[u8]) -> Vec<(String, String)> {
+    dispatch_len!(
+        bytes.len(),
+        [
+            U0, U1, U2, U3, U4, U5, U6, U7, U8, U9, U10, U11, U12, U13, U14, U15, U16, U17, U31, U32, U33,
+            U1023, U1024, U1025, U2047, U2048, U2049, U3000, U4096
+        ],
+        |N| fmt_variants::<N>(upper, prec, bytes),
+        panic!("length {} not monomorphised", bytes.len())
+    )
+}
 
 fn run_impl(upper: bool, prec: Option<usize>, bytes: &[u8]) -> String {
     dispatch_len!(
@@ -91,6 +149,20 @@ fn do_case(case: Vec<i128>) {
             let mut obs: Vec<i128> = vec![0];
             obs.extend(s.bytes().map(|b| b as i128));
             emit_obs(&obs);
+            // width, fill, alignment, sign and alternate flags must not change the output
+            if prec.map(|p| p <= PMAX).unwrap_or(true) {
+                match catch(|| run_variants(upper, prec, &bytes)) {
+                    Ok(vs) => {
+                        for (spec, v) in vs {
+                            if v != s {
+                                emit_oracle(&format!("format spec {} prints {} chars where the plain spec prints {}: width / fill / flags must be ignored (N={})", spec, v.len(), s.len(), n));
+                                break;
+                            }
+                        }
+                    }
+                    Err(m) => emit_oracle(&format!("formatting with a width panicked: {}", m)),
+                }
+            }
             let want = reference(upper, prec, &bytes);
             if s != want {
                 let at = s.bytes().zip(want.bytes()).position(|(a, b)| a != b).unwrap_or(s.len().min(want.len()));
